@@ -828,6 +828,8 @@ def run(ctx):
     stream_palette(ctx, reqs, pending)
     stream_selectors(ctx, reqs, pending)
     stream_placement(ctx, reqs, pending)
+    stream_objects(ctx, reqs, pending)
+    stream_paths(ctx, reqs, pending)
     settle(ctx, reqs, pending)
 
 
@@ -1430,3 +1432,250 @@ def stream_placement(ctx, reqs, pending):
                     ctx.fail({'stream': 'place', 'kind': kind, 'places': places, 'frame': 'all'},
                              {'why': 'get_frames differs from per-frame get_frame', 'got': str(batch[1:])[:300]}, site='placement/get_frames')
     ctx.exhaustive.append('placement: 3 kinds x 8 subsets of {image, shared, per-frame} x 3 frames')
+
+
+# ---------------------------------------------------------------------------- standalone transformation objects
+def stream_objects(ctx, reqs, pending):
+    import highdicom as hd
+    from pydicom.dataset import Dataset
+    from pydicom.pixels.processing import apply_modality_lut, apply_windowing
+    from pydicom.sr.coding import Code
+    from gen.pixeltransforms import fl, lut_item
+    for idx in range(ctx.n(150, 2500)):
+        r = ctx.rng('obj', idx)
+        kind = r.choice(['voi-window', 'voi-window', 'voi-lut', 'mod-rescale', 'mod-lut', 'rwvm-linear', 'rwvm-lut'])
+        signed = r.random() < 0.3
+        adt = r.choice(['int16', 'int32', 'int8']) if signed else r.choice(['uint16', 'uint8', 'uint16'])
+        ii = np.iinfo(adt)
+        xs = [max(ii.min, min(ii.max, r.randint(-40, 340))) for _ in range(6)] + [ii.min, ii.max]
+        arr = np.array(xs, dtype=adt).reshape(2, 4)
+        P = {'bits': ii.bits, 'signed': signed, 'bits_stored': ii.bits, 'photometric': 'MONOCHROME2', 'frames': [arr.tolist()], 'T': {}}
+        case = {'stream': 'obj', 'idx': idx, 'kind': kind, 'array_dtype': adt, 'xs': arr.tolist()}
+        opts = {}
+        flags = {'rw': False, 'mod': None, 'voi': None, 'pal': None, 'icc': None, 'pres': True}
+        st_model = None
+        if kind.startswith('voi'):
+            odd = r.choice([1, 1, 3, 5])
+            lo = dyadic(r, -16, 16, 4)
+            hi = lo + Fraction(odd * r.randint(1, 8)) / 2 ** r.randint(0, 2)
+            opts['voi_output_range'] = [fs(lo), fs(hi)]
+            inv = r.random() < 0.4
+            if inv:
+                P['T']['pres_shape'] = 'INVERSE'
+            if kind == 'voi-window':
+                fn = r.choice([None, 'LINEAR', 'LINEAR_EXACT', 'SIGMOID'])
+                nwin = r.choice([1, 1, 2, 3])
+                cs, ws, _ = gen_window(r, Fraction(1), Fraction(0), nwin, fn)
+                sel = r.randint(-nwin, nwin - 1)
+                opts['voi_selector'] = sel
+                P['T']['window'] = [{'place': 'image', 'vals': [{'c': cs, 'w': ws, 'fn': fn}]}]
+                tr = call(hd.VOILUTTransformation, [fl(c) for c in cs] if nwin > 1 else fl(cs[0]),
+                          [fl(w) for w in ws] if nwin > 1 else fl(ws[0]), None, fn)
+            else:
+                lut = gen_lut(r, r.choice([8, 16]), (0, 200), pow2_range=r.random() < 0.7)
+                sel = 0
+                P['T']['voi_luts'] = [lut]
+                tr = call(lambda: hd.VOILUTTransformation(voi_luts=[hd.VOILUT(lut['first'], np.asarray(lut['data'], dtype=np.uint8 if lut['bits'] == 8 else np.uint16))]))
+            if tr[0] != 'ok':
+                ctx.note(f'object case {idx}: construction failed: {tr[2]}')
+                continue
+            dtype = r.choice(['float64', 'float64', 'float32'])
+            opts['dtype'] = dtype
+            res = call(tr[1].apply, arr, (fl(lo), fl(hi)), sel, np.dtype(dtype), inv)
+            ref = check_call(ctx, case, P, 0, flags, opts, res, 'VOILUTTransformation.apply')
+            # pydicom second opinion (windows, unsigned 16 bit, no inversion): same shape after normalising its output range
+            if kind == 'voi-window' and res[0] == 'ok' and ref[0] == 'ok' and not inv and not signed and dtype == 'float64':
+                ds = Dataset()
+                ds.BitsStored, ds.PixelRepresentation, ds.PhotometricInterpretation = ii.bits, 0, 'MONOCHROME2'
+                c, w = select_window({'c': cs, 'w': ws}, sel)
+                ds.WindowCenter, ds.WindowWidth = fl(c), fl(w)
+                if fn:
+                    ds.VOILUTFunction = fn
+                so = call(apply_windowing, arr, ds)
+                if so[0] == 'ok':
+                    ymax = 2 ** ii.bits - 1
+                    norm = np.asarray(so[1], dtype=float) / ymax * float(hi - lo) + float(lo)
+                    ctx.case(second_opinion='apply_windowing')
+                    if np.abs(norm - res[1]).max() > 1e-9 * (1 + abs(float(hi)) + abs(float(lo))):
+                        ctx.fail(case, {'why': "differs from pydicom's apply_windowing (rescaled to the output range)",
+                                        'got': res[1].tolist(), 'pydicom': norm.tolist()}, site='second-opinion/apply_windowing')
+        elif kind.startswith('mod'):
+            flags['voi'] = False
+            dtype = r.choice(['float64', 'float64', 'float32', 'int32', 'int16'])
+            if kind == 'mod-rescale':
+                m = r.choice(SLOPES)
+                b = Fraction(r.randint(-50, 50)) if r.random() < 0.7 else dyadic(r, -50, 50, 8)
+                P['T']['rescale'] = [{'place': 'image', 'vals': [[fs(m), fs(b)]]}]
+                tr = call(hd.ModalityLUTTransformation, fl(b), fl(m), 'US')
+                ds = Dataset()
+                ds.RescaleSlope, ds.RescaleIntercept = fl(m), fl(b)
+            else:
+                lut = gen_lut(r, r.choice([8, 16]), (ii.min if signed else 0, 200) if False else (0, 200))
+                P['T']['mod_lut'] = lut
+                dtype = r.choice([None, None, 'float64', 'int32', 'uint16'])
+                tr = call(lambda: hd.ModalityLUTTransformation(modality_lut=hd.ModalityLUT('US', lut['first'], np.asarray(
+                    lut['data'], dtype=np.uint8 if lut['bits'] == 8 else np.uint16))))
+                ds = Dataset()
+                ds.ModalityLUTSequence = [lut_item(lut['first'], lut['bits'], lut['data'], lut_type='US')]
+                ds.PixelRepresentation = 0
+            if tr[0] != 'ok':
+                ctx.note(f'object case {idx}: construction failed: {tr[2]}')
+                continue
+            if dtype is None:
+                opts['dtype'] = 'uint8' if lut['bits'] == 8 else 'uint16'
+                res = call(tr[1].apply, arr)
+            else:
+                opts['dtype'] = dtype
+                res = call(tr[1].apply, arr, np.dtype(dtype))
+            ref = check_call(ctx, case, P, 0, flags, opts, res, 'ModalityLUTTransformation.apply')
+            if res[0] == 'ok' and ref[0] == 'ok' and (kind == 'mod-rescale' or not signed):
+                so = call(apply_modality_lut, arr, ds)
+                if so[0] == 'ok':
+                    ctx.case(second_opinion='apply_modality_lut')
+                    if np.abs(np.asarray(so[1], dtype=float) - np.asarray(res[1], dtype=float)).max() > 1e-9:
+                        ctx.fail(case, {'why': "differs from pydicom's apply_modality_lut", 'got': np.asarray(res[1]).tolist(),
+                                        'pydicom': np.asarray(so[1]).tolist()}, site='second-opinion/apply_modality_lut')
+        else:
+            flags.update(rw=True, voi=False)
+            a = r.randint(int(ii.min), int(ii.max) - 1)
+            if kind == 'rwvm-linear':
+                first, last = (int(ii.min), int(ii.max)) if r.random() < 0.6 else (a, min(int(ii.max), a + r.choice([3, 50, 400])))
+                m = {'label': 'A', 'unit': UNITS[0], 'first': first, 'last': last, 'slope': fs(r.choice(SLOPES)), 'intercept': fs(dyadic(r, -100, 100, 8))}
+                tr = call(hd.pm.RealWorldValueMapping, 'A', 'expl', Code(*UNITS[0]), (first, last), fl(m['slope']), fl(m['intercept']))
+            else:
+                first = a if r.random() < 0.5 else max(int(ii.min), min(xs) - 1)
+                last = min(int(ii.max), first + r.choice([1, 2, 7, 400]))
+                m = {'label': 'A', 'unit': UNITS[0], 'first': first, 'last': last,
+                     'lut': [fs(dyadic(r, -1000, 1000, 16)) for _ in range(last - first + 1)]}
+                tr = call(hd.pm.RealWorldValueMapping, 'A', 'expl', Code(*UNITS[0]), (first, last), None, None, [fl(v) for v in m['lut']])
+            P['T']['rwvm'] = [{'place': 'image', 'vals': [[m]]}]
+            if r.random() < 0.75:       # mostly inside the mapped range
+                arr = np.clip(arr.astype(np.int64), m['first'], m['last']).astype(adt)
+                P['frames'] = [arr.tolist()]
+                case['xs'] = arr.tolist()
+            if tr[0] != 'ok':
+                ctx.note(f'object case {idx}: construction failed: {tr[2]}')
+                continue
+            res = call(tr[1].apply, arr)
+            ref = check_call(ctx, case, P, 0, flags, opts, res, 'RealWorldValueMapping.apply')
+        kinds = '+'.join(ref[2]['kind']) if ref[0] == 'ok' else ref[0] + ':' + str(ref[1])[:20]
+        ctx.case(nontrivial_key=('obj', kind, kinds, adt, idx) if ref[0] == 'ok' else None, object_kind=kind, object_pipeline=kinds,
+                 object_outcome=res[0] if res[0] == 'ok' else res[1])
+        mp = model_params(P, 0, opts) if ref[0] in ('ok', 'err') else None
+        if mp is not None and 'constant' not in str(ref[1]):
+            reqs.append(('pipeline', {'flags': [flags[k] for k in ('rw', 'mod', 'voi', 'pal', 'icc')], 'pres': True, 'ctype': MONO,
+                                      'present': [mp[1][k] for k in PRES_KEYS], 'params': mp[0], 'xs': [int(x) for x in arr.reshape(-1)]}))
+            pending.append(('pipeline', case, res, ref, opts.get('dtype', 'float64')))
+
+
+# ---------------------------------------------------------------------------- other access paths
+def _stored_P(ds, frames, T):
+    return {'bits': int(ds.BitsAllocated), 'signed': bool(ds.PixelRepresentation), 'bits_stored': int(ds.BitsStored),
+            'photometric': str(ds.PhotometricInterpretation), 'frames': np.asarray(frames).tolist(), 'T': T}
+
+
+def stream_paths(ctx, reqs, pending):
+    """get_volume, get_total_pixel_matrix, get_volume_from_series apply the same per-frame pipeline as get_frame"""
+    import highdicom as hd
+    from gen.pixeltransforms import add_transforms
+    from gen.sources import ct_series, enhanced_multiframe, slide_image
+    for idx in range(ctx.n(24, 300)):
+        r = ctx.rng('paths', idx)
+        nr = ctx.np_rng('paths', idx)
+        path = ['volume', 'tpm', 'series'][idx % 3]
+        m = r.choice(SLOPES)
+        b = Fraction(r.randint(-50, 50))
+        fn = r.choice([None, 'LINEAR', 'LINEAR_EXACT', 'SIGMOID'])
+        flags = {'rw': None, 'mod': r.choice([None, None, True, False]), 'voi': r.choice([None, True, False]), 'pal': None, 'icc': None,
+                 'pres': r.random() < 0.8}
+        if flags['mod'] is False:
+            flags['voi'] = False
+        opts = {}
+        if r.random() < 0.5:
+            lo = dyadic(r, -8, 8, 4)
+            opts['voi_output_range'] = [fs(lo), fs(lo + r.choice([1, 2, 4]))]
+        kw = dict(flag_kwargs(flags), **opt_kwargs(opts))
+        case = {'stream': 'paths', 'idx': idx, 'path': path, 'flags': flags, 'opts': opts}
+        if path == 'series':
+            n = r.choice([2, 3, 4])
+            series = ct_series(n, r.randint(1, 3), r.randint(2, 4), rng=nr)
+            Ps = []
+            for d in series:
+                mm = r.choice(SLOPES)
+                bb = Fraction(r.randint(-50, 50))
+                cs, ws, _ = gen_window(r, mm, bb, 1, fn)
+                T = {'rescale': [{'place': 'image', 'vals': [[fs(mm), fs(bb)]]}],
+                     'window': [{'place': 'image', 'vals': [{'c': cs, 'w': ws, 'fn': fn}]}]}
+                if r.random() < 0.3:
+                    T['pres_shape'] = 'INVERSE'
+                stored = np.frombuffer(d.PixelData, dtype=np.uint16)[:d.Rows * d.Columns].reshape(d.Rows, d.Columns)
+                add_transforms(d, T, 1)
+                Ps.append(_stored_P(d, [stored], T))
+            res = call(hd.image.get_volume_from_series, series, **kw)
+            raw = call(hd.image.get_volume_from_series, series, apply_modality_transform=False, apply_presentation_lut=False)
+            if raw[0] != 'ok':
+                ctx.note(f'paths case {idx}: stored-value volume not available: {raw[2]}')
+                continue
+            refs = [ref_frame(P, 0, flags, opts) for P in Ps]
+            order = []
+            for k in range(n):
+                hit = [j for j, P in enumerate(Ps) if np.array_equal(raw[1].array[k], np.asarray(P['frames'][0]))]
+                order.append(hit[0] if len(hit) == 1 else None)
+            got_slices = (lambda k: res[1].array[k]) if res[0] == 'ok' else None
+            items = [(k, order[k], Ps[order[k]], 0) for k in range(n) if order[k] is not None]
+        else:
+            if path == 'volume':
+                n = r.choice([2, 3, 4])
+                ds = enhanced_multiframe(n, r.randint(1, 3), r.randint(2, 4), rng=nr)
+                stored = np.frombuffer(ds.PixelData, dtype=np.uint16)[:n * ds.Rows * ds.Columns].reshape(n, ds.Rows, ds.Columns)
+                places = ['shared', 'perframe']
+            else:
+                ds, tpm = slide_image(r.randint(3, 7), r.randint(3, 8), r.randint(1, 3), r.randint(2, 4), bits=r.choice([8, 16]), rng=nr)
+                n = int(ds.NumberOfFrames)
+                places = ['shared', 'image']
+            T = {}
+            pr = r.choice(places)
+            pw = r.choice(places)
+            cs0, ws0, _ = gen_window(r, m, b, 1, fn)
+            T['rescale'] = [{'place': pr, 'vals': [[fs(m), fs(b)] for _ in range(n if pr == 'perframe' else 1)]}]
+            if pr == 'perframe':
+                for v in T['rescale'][0]['vals'][1:]:
+                    if r.random() < 0.6:
+                        v[0], v[1] = fs(r.choice(SLOPES)), fs(Fraction(r.randint(-50, 50)))
+            T['window'] = [{'place': pw, 'vals': [{'c': cs0, 'w': ws0, 'fn': fn} for _ in range(n if pw == 'perframe' else 1)]}]
+            if pw == 'perframe':
+                for i, v in enumerate(T['window'][0]['vals'][1:]):
+                    mi = F(T['rescale'][0]['vals'][i + 1][0]) if pr == 'perframe' else m
+                    bi = F(T['rescale'][0]['vals'][i + 1][1]) if pr == 'perframe' else b
+                    v['c'], v['w'], _ = gen_window(r, mi, bi, 1, fn)
+            if r.random() < 0.3:
+                T['pres_shape'] = 'INVERSE'
+            add_transforms(ds, T, n)
+            st = call(hd.Image.from_dataset, ds)
+            if st[0] != 'ok':
+                ctx.note(f'paths case {idx}: image not built: {st[2]}')
+                continue
+            im = st[1]
+            if path == 'volume':
+                res = call(im.get_volume, **kw)
+                raw = call(im.get_volume, apply_modality_transform=False, apply_presentation_lut=False)
+                if raw[0] != 'ok':
+                    ctx.note(f'paths case {idx}: stored-value volume not available: {raw[2]}')
+                    continue
+                P = _stored_P(ds, stored, T)
+                order = []
+                for k in range(n):
+                    hit = [j for j in range(n) if np.array_equal(raw[1].array[k], stored[j])]
+                    order.append(hit[0] if len(hit) == 1 else None)
+                got_slices = (lambda k: res[1].array[k]) if res[0] == 'ok' else None
+                items = [(k, order[k], P, order[k]) for k in range(n) if order[k] is not None]
+            else:
+                res = call(im.get_total_pixel_matrix, **kw)
+                # one "frame" = the whole matrix (placements are shared / image level: every tile has the same parameters)
+                P = _stored_P(ds, [tpm], {k: ([dict(e, place='image') for e in v] if isinstance(v, list) else v) for k, v in T.items()})
+                got_slices = (lambda k: res[1]) if res[0] == 'ok' else None
+                items = [(0, 0, P, 0)]
+        ctx.case(nontrivial_key=('paths', path, idx), access_path=path, path_outcome=res[0] if res[0] == 'ok' else res[1])
+        for k, j, P, f in items:
+            one = ('ok', got_slices(k)) if res[0] == 'ok' else res
+            check_call(ctx, dict(case, slice=k, source=j), P, f, flags, opts, one, 'paths/' + path, hist=False)
